@@ -28,8 +28,50 @@ PATCHES = [3, 5, 7]
 
 
 # ---------------------------------------------------------------- generation
+BIG = [F(2 ** 38), F(2 ** 38 - 16384), F(2 ** 38 - 32768), F(2 ** 37), F(2 ** 30 + 128)]   # exact in float32; <= VMAX = 2^38
+LOW = [F(-9999), F(-19999, 2), F(-9000), F(-9984)]                                          # > BORDER = -1e4
+
+
+def gen_domain_edge(rng):
+    """Values at the two ends of the stated value domain -1e4 < v <= 2^38 (Peaks.in_value_domain): the centre term
+    v - 1e4 of the dilation still differs from v in float32 (ulp(2^38) / 2 = 8192 < 1e4), and border cells still
+    exceed the geodesic border value.  float32 / float64 only (float16 ends at 65504)."""
+    H, W = rng.choice([(1, 1), (1, 3), (3, 1), (2, 2), (3, 3), (3, 4), (4, 5)])
+    B, C = rng.randint(1, 2), rng.randint(1, 2)
+    hi = rng.random() < 0.5
+    pool = BIG if hi else LOW
+    bg = [F(0), F(1), F(2 ** 37)] if hi else [F(-9999), F(-9990), F(-5000)]
+    cms = [[[[rng.choice(bg) if rng.random() < 0.7 else rng.choice(pool) for _ in range(W)] for _ in range(H)]
+            for _ in range(C)] for _ in range(B)]
+    vals = sorted(set(M.all_values(cms)))
+    thr = rng.choice([vals[0] - 1, vals[0], vals[len(vals) // 2], F(1, 2) if hi else F(-9999)])
+    return {"kind": "rough", "cms": cms, "thr": thr, "family": "domain_edge_high" if hi else "domain_edge_low",
+            "dtype": rng.choice(["float32", "float32", "float64"])}
+
+
+def gen_outside(rng):
+    """OUTSIDE the value domain (v <= -1e4 = kornia's geodesic border / centre constant): the model is still
+    compared with the code (this is what exercises the constant BORDER and the `v + BORDER` centre term), the
+    property's oracle is not applied."""
+    H, W = rng.choice([(1, 1), (1, 3), (3, 1), (2, 2), (3, 3), (3, 4)])
+    pool = [F(-10000), F(-9999), F(-20001, 2), F(-19999, 2), F(-20000), F(-30000), F(-10001), F(-15000), F(0)]
+    cms = [[[[rng.choice(pool) for _ in range(W)] for _ in range(H)] for _ in range(rng.randint(1, 2))]]
+    return {"kind": "rough_outside", "cms": cms, "thr": rng.choice([F(-40000), F(-20000), F(-10000), F(-9999)]),
+            "family": "outside_value_domain", "dtype": rng.choice(["float32", "float64"])}
+
+
 def gen_case(rng, thorough):
     big = 10 if thorough else 8
+    t0 = rng.random()
+    if t0 < 0.09:       # non-dyadic thresholds (0.1, 0.2, 0.3, 0.7), cells exactly at / next to dtype(threshold)
+        cms, thr, dt = M.gen_thr_edge(rng)
+        if t0 < 0.05 or (dt == "float16" and (len(cms[0][0]) == 1 or len(cms[0][0][0]) == 1)):
+            return {"kind": "rough", "cms": cms, "thr": thr, "family": "thr_edge", "dtype": dt}
+        return {"kind": "refine", "cms": cms, "thr": thr, "p": M.gen_patch_size(rng), "family": "thr_edge", "dtype": dt}
+    if t0 < 0.15:
+        return gen_domain_edge(rng)
+    if t0 < 0.18:
+        return gen_outside(rng)
     t = rng.random()
     if t < 0.32:
         cms, fam = M.gen_batch(rng, big)
@@ -75,12 +117,18 @@ def gen_case(rng, thorough):
             "bh": rng.randint(1, 9), "bw": rng.randint(1, 9)}
 
 
+def thr_cmp(c):
+    """The threshold rounded to the map's dtype (M.thr_in_dtype): what the code compares with, what the model is given
+    and what the theorems and the oracle call `thr`."""
+    return M.thr_in_dtype(c["thr"], c.get("dtype", "float32"))
+
+
 def term(c):
     k = c["kind"]
-    if k in ("rough", "refine_none", "refine_other"):
-        return f"CRough {M.cms_lit(c['cms'])} {core.cq(c['thr'])}"
+    if k in ("rough", "refine_none", "refine_other", "rough_outside"):     # the threshold as the code compares it
+        return f"CRough {M.cms_lit(c['cms'])} {core.cq(thr_cmp(c))}"
     if k == "refine":       # the patch by its size p (odd: integer-centred window; even: half-pixel samples)
-        return f"CRefineP {M.cms_lit(c['cms'])} {core.cq(c['thr'])} {c['p']}%nat"
+        return f"CRefineP {M.cms_lit(c['cms'])} {core.cq(thr_cmp(c))} {c['p']}%nat"
     if k == "crop":
         cs = core.clist(c["centres"], lambda xy: f"({xy[0]}%nat, {xy[1]}%nat)")
         return (f"CCropP {core.clist(c['imgs'], M.cmap_lit)} {cs} {core.clist(c['inds'], core.cnat)} "
@@ -143,7 +191,7 @@ def run_impl(c, mods):
     torch, pf, mcb = mods
     k = c["kind"]
     dt = c.get("dtype", "float32")
-    if k == "rough":
+    if k in ("rough", "rough_outside"):
         return impl_rough(c["cms"], c["thr"], mods, dt)
     if k == "refine_none":
         return peaks_out(pf.find_local_peaks(M.to_tensor(c["cms"], torch, dt), threshold=float(c["thr"]),
@@ -173,7 +221,9 @@ def run_impl(c, mods):
 
 # ---------------------------------------------------------------- the property, executable
 def oracle_rough(cms, thr, out, mods, locality=True, dtype="float32"):
-    """C06 first sentence, clause by clause.  Returns None or a reason."""
+    """C06 first sentence, clause by clause (`thr` = the caller's threshold; the statement is read with the
+    threshold as the code compares it: rounded to the map's dtype).  Returns None or a reason."""
+    tc = M.thr_in_dtype(thr, dtype)
     B, C = len(cms), len(cms[0])
     H, W = len(cms[0][0]), len(cms[0][0][0])
     seen = set()
@@ -187,7 +237,7 @@ def oracle_rough(cms, thr, out, mods, locality=True, dtype="float32"):
         if F(v) != cms[s][c][y][x]:
             return f"peak {(x, y, s, c)}: value {v} is not the map value {cms[s][c][y][x]}"   # c06_value
     want = {(x, y, s, c) for s in range(B) for c in range(C)
-            for (x, y, _) in M.strict_local_maxima(cms[s][c], thr)}
+            for (x, y, _) in M.strict_local_maxima(cms[s][c], tc)}
     if seen - want:
         return f"reported {sorted(seen - want)[:3]}: not a strict local maximum above threshold"   # c06_sound
     if want - seen:
@@ -249,7 +299,7 @@ def close(a, b, tol):
 def compare(c, model, out):
     k = c["kind"]
     skipped = 0
-    if k in ("rough", "refine_none", "refine_other"):
+    if k in ("rough", "refine_none", "refine_other", "rough_outside"):
         want = [[x, y, float(core.frac(v)), s, ch] for (x, y, v, s, ch) in model]
         if want != [[int(x), int(y), v, s, ch] for (x, y, v, s, ch) in out]:
             return f"peaks differ: impl {out[:6]} model {want[:6]}", 0
@@ -261,15 +311,15 @@ def compare(c, model, out):
         r = p // 2
         # the grid cell of the i-th peak: brute-force maxima in torch.where order (sample, y, x, channel)
         rough = sorted((s, y, x, ch) for s, smp in enumerate(c["cms"]) for ch, m in enumerate(smp)
-                       for (x, y, _) in M.strict_local_maxima(m, c["thr"]))
+                       for (x, y, _) in M.strict_local_maxima(m, thr_cmp(c)))
         if len(rough) != len(model):
             return f"model reports {len(model)} peaks, brute force {len(rough)}", 0
         for i, ((pt, v, s, ch), (x, y, vo, so, co)) in enumerate(zip(model, out)):
             if (s, ch) != (so, co) or float(core.frac(v)) != vo:
                 return f"peak {i}: impl (val,s,c)={(vo, so, co)} model {(float(core.frac(v)), s, ch)}", 0
-            if pt is None:
-                skipped += 1        # zero patch sum: NaN/inf in exact arithmetic, ill-conditioned in float
-                continue
+            if pt is None:          # zero patch sum: the model's None stands for "inf, NaN or — kornia's bilinear crop
+                skipped += 1        # is not exact, so the float sum may be ~1e-16 instead of 0 — an arbitrary huge
+                continue            # number": nothing to compare (a check for non-finiteness was tried: false alarms)
             mx, my = float(core.frac(pt[0])), float(core.frac(pt[1]))
             (_, gy, gx, _) = rough[i]
             # conditioning of the division by the patch sum (float32 crop values carry ~2e-6 relative error)
@@ -440,8 +490,21 @@ def check(run: core.Run) -> int:
                          f"inside kornia's crop_and_resize (float16 underflow of its epsilon); float32/float64 are fine; "
                          f"such cases are kept out of the generated stream")
     o = impl_rough([[[[F(-20000)]]]], F(-30000), mods)
-    run.notes.append(f"observation: a border cell with value <= -1e4 (kornia's geodesic border value) is not "
-                     f"reported: impl on [[-20000]] thr -30000 -> {o} (the model agrees: ex_border_value_matters)")
+    run.obligation("c06_border_value_observation holds of the code: [[-20000]] with threshold -30000 yields no peak "
+                   "(a border cell <= -1e4, kornia's geodesic border value, is never reported)", o == [], f"impl -> {o}")
+    # the upper end of the value domain (Peaks.VMAX = 2^38): beyond it float32 absorbs the centre term v - 1e4
+    # (ulp/2 = 16384 > 1e4), so an isolated maximum is dropped; float64 absorbs beyond 2^67; +inf always.  Logged.
+    obs = []
+    for dt, v in (("float32", 2.0 ** 38), ("float32", 2.0 ** 38 + 32768), ("float32", float("inf")),
+                  ("float64", 2.0 ** 38 + 32768), ("float64", 2.0 ** 67), ("float64", 2.0 ** 67 + 32768)):
+        t = torch.zeros(1, 1, 3, 3, dtype=getattr(torch, dt))
+        t[0, 0, 1, 1] = v
+        obs.append(f"{dt} {v:.6g} -> {len(pf.find_local_peaks_rough(t, threshold=0.5)[0])} peak(s)")
+    run.notes.append("observation (outside the value domain v <= 2^38 of c06_complete): an isolated maximum on a zero 3x3 "
+                     "map: " + "; ".join(obs))
+    in_dom = len(pf.find_local_peaks_rough(torch.tensor([[[[0., 0, 0], [0, 2.0 ** 38, 0], [0, 0, 0]]]]), threshold=0.5)[0])
+    run.obligation("the value domain of c06_complete reaches its stated upper end on the code: an isolated float32 "
+                   "maximum 2^38 is reported", in_dom == 1, f"{in_dom} peaks")
     run.coverage.update({
         "input_distribution": dist, "disagreements": stats["disagree"],
         "refined_peaks_skipped_zero_patch_sum": stats["skipped_zero_sum"], "corpus_cases": n_corpus,
@@ -460,8 +523,14 @@ def check(run: core.Run) -> int:
         "axis, which yields the same offsets: tied at the find_local_peaks level)",
         "torch.where order on the (B,H,W,C) permutation; float32 sums/divisions compared within tolerance",
     ]
-    run.assumptions += ["map values are finite and > -1e4 (kornia's border value) for the model (NaN cells: oracle only); "
+    run.assumptions += ["map values are finite, > -1e4 (kornia's geodesic border / centre constant) and <= 2^38 (beyond it the "
+                        "float32 centre term v - 1e4 equals v and the code drops an isolated maximum; float64: 2^67) — "
+                        "Peaks.in_value_domain, a hypothesis of c06_complete; values <= -1e4 are compared model-vs-code "
+                        "only (kind rough_outside); NaN cells: oracle only; "
                         "rectangular batches with B,C,H,W >= 1; float32 / float64 / float16 inputs",
+                        "`thr` in the model, the theorems and the oracle is the threshold AS THE CODE COMPARES IT: the "
+                        "caller's Python float rounded to the map's dtype (float32(0.2) = 0.2000000030, float16(0.2) = "
+                        "0.19995); the harness passes that exact rational (c06_maps.thr_in_dtype)",
                         "integral_patch_size >= 2, odd or even (size 1 is a single cell, not a patch: kornia raises on the "
                         "degenerate box; logged as an observation)"]
     return run.finish()
